@@ -39,7 +39,7 @@ CLAIMS = {
              "without events inside them (rx_covers, env_rxByte, env_rxEnd, C03_step_on_chip: flag semantics, FIFO reads including the clearing of "
              "PayloadReady, flush, configuration registers), and from there the cached build from any coherent state (C03_step_on_chip_cached = C03_step_on_chip + the one-step simulation of C02 + C01). "
              "On the chip model the statement is also given in terms of what the application observes (C03_step_on_chip_obs / C03_observed_callbacks: the callbacks in the observation of the step are exactly what the invocation added to the ghost list - none, or the one receive callback with the payload and its length; a generic lemma, covers_cbs, ties the interpreter's callback log to the ghost's) "
-             "and as a closed set of states: Receiving.byte, Receiving.fin, Receiving.irq - the next byte arrives, the end of the packet is signalled, the host runs the handler: the reception goes on unseen, or exactly this invocation delivers the payload once, or the packet is dropped for its CRC; arrivals INSIDE a running handler are covered by the "
+             "and as a closed set of states: Receiving.byte, Receiving.fin, Receiving.irq - the next byte arrives, the end of the packet is signalled, the host runs the handler: the reception goes on unseen, or exactly this invocation delivers the payload once, or the packet is dropped for its CRC. C03_history_on_chip puts them together over Sys.run: for every admissible history of byte arrivals between operations, the end-of-packet signal and handler invocations (spurious and repeated ones included; frame with good or unchecked CRC), the application sees nothing until one invocation shows exactly one receive callback with exactly the payload and its length. Arrivals INSIDE a running handler are covered by the "
              "environment but tied to the chip model by the scripts only. The environment rxE (Sx/Lemmas/RxFifo.lean) is a 64-byte FIFO into which "
              "the demodulator may push any number of the frame's next bytes before EVERY SPI transfer (hence also between the transfers of a "
              "running handler) as long as the FIFO does not fill up (the property's hypothesis), PayloadReady raised at any moment after the "
@@ -71,7 +71,7 @@ CLAIMS = {
              "overflow, no flush). tx_covers + C04_step_on_chip: the interpreter over the chip model, cached or uncached build, with any "
              "schedule of modulator events before any transfer and any failing transfers, is an instance of txE (flag facts decided in the "
              "kernel over all 256 register values), so the statements hold for executions on the simulated chip, whose overflow counter stays "
-             "unchanged; C04_step_on_chip_obs states it in terms of the observation of the step (the callbacks shown are exactly what the invocation added to the ghost list: none, or the one transmit callback), and TxRunning.event / TxRunning.irq make the running transmission a closed set of states (a modulator event between operations; a handler invocation: still running and nothing seen, or completion with exactly one transmit callback). Not proved: that the whole frame has been handed over when the chip reports completion (this is the no-underrun "
+             "unchanged; C04_step_on_chip_obs states it in terms of the observation of the step (the callbacks shown are exactly what the invocation added to the ghost list: none, or the one transmit callback), TxRunning.event / TxRunning.irq make the running transmission a closed set of states, and C04_history_on_chip states over Sys.run that for every history of modulator events and handler invocations (either build, events and failing transfers inside the invocations too) the application sees nothing until one invocation shows exactly one transmit callback. Not proved: that the whole frame has been handed over when the chip reports completion (this is the no-underrun "
              "assumption on the schedule), and exactly-once delivery when the application queues the next packet or leaves TX inside the "
              "callback - decided by the scripts (stay/leave/chain behaviours, in-handler modulator events, faults) on the real driver.",
         technique="Lean 4 weakest-precondition calculus over an abstract environment (all schedules, all answers) + refinement of the chip-model interpreter to that environment + TX schedules on the real driver",
